@@ -625,8 +625,28 @@ class MProcess(QOperation):
     def _check_shape(self, shape_left: Tuple[int], shape_right: Tuple[int]):
         if shape_left != shape_right:
             raise ValueError(
-                f"shape of MProcess of operands don't equal. shape of left={shape_left.shape}, shape of right={shape_right.shape}"
+                f"shape of MProcess of operands don't equal. shape of left={shape_left}, shape of right={shape_right}"
             )
+
+    def __add__(self, other):
+        new_qobject = super().__add__(other)
+        new_qobject._shape = self.shape
+        return new_qobject
+
+    def __sub__(self, other):
+        new_qobject = super().__sub__(other)
+        new_qobject._shape = self.shape
+        return new_qobject
+
+    def __mul__(self, other):
+        new_qobject = super().__mul__(other)
+        new_qobject._shape = self.shape
+        return new_qobject
+
+    def __truediv__(self, other):
+        new_qobject = super().__truediv__(other)
+        new_qobject._shape = self.shape
+        return new_qobject
 
     def _add_vec(self, other) -> List[np.ndarray]:
         self._check_shape(self.shape, other.shape)
